@@ -62,7 +62,8 @@ class SquaredEuclideanNdim:
 
     @staticmethod
     def inner_dist(x, y):
-        return np.sum((x - y) ** 2)
+        # The points can be given as plain sequences (e.g. a series that is a list of lists)
+        return np.sum((np.asarray(x) - np.asarray(y)) ** 2)
 
     @staticmethod
     def result(x):
@@ -92,7 +93,7 @@ class EuclideanNdim:
 
     @staticmethod
     def inner_dist(x, y):
-        return np.sqrt(np.sum(np.power(x - y, 2)))
+        return np.sqrt(np.sum(np.power(np.asarray(x) - np.asarray(y), 2)))
 
     @staticmethod
     def result(x):
